@@ -49,4 +49,17 @@ def dropPointPass1 (S : Schema) (doc : Node) (pos : Nat) (sl : Slice) : Option (
     | none => none
     | some content => dropLoop S r content false (r.depth + 1)
 
+/-- `can_change_type(doc, pos, type)` tests `parent.can_replace_with(index, index + 1, type)` — whether the parent takes
+    a node of the new type in place of the node after `pos`.  `set_node_markup(pos, type, attrs, marks)` on a non-leaf node
+    also needs (a) the new type to accept the node's children (`type.valid_content(node.content)`: `set_node_markup` tests
+    it itself and raises `ValueError` — `can_change_type` does not look at it) and (b) the parent to allow the marks `ms`
+    of the new node (automatic when the node's own marks are kept). -/
+def changeTypeGuard (S : Schema) (doc : Node) (pos : Nat) (ty : TypeId) (ms : Marks) : Bool :=
+  match doc.resolve pos with
+  | some r =>
+    match r.parent.kids[r.index r.depth]? with
+    | some n => S.validContent ty n.kids && (S.nodeType (S.tyOf r.parent)).allowsMarks ms
+    | none => false
+  | none => true
+
 end PM
